@@ -38,6 +38,9 @@ pub struct FriCase {
     pub num_queries: usize,
     pub log_final_poly_len: usize,
     pub max_log_arity: usize,
+    /// Merkle cap height of the MMCS (input and commit-phase trees); trees with fewer layers get a shorter cap
+    #[serde(default)]
+    pub cap_height: usize,
     #[serde(default)]
     pub pow_bits: usize,
     #[serde(default)]
@@ -79,6 +82,9 @@ pub struct FriOutcome {
     pub native: Verdict,
     pub circuit: Verdict,
     pub log_arities: Vec<usize>,
+    /// number of cap entries of every input commitment / every commit-phase commitment of the honest proof
+    pub roots_input: Vec<usize>,
+    pub roots_commit: Vec<usize>,
     pub fault_site: Value,
 }
 
@@ -181,7 +187,7 @@ macro_rules! fri_cfg {
 
             fn make_pcs(case: &FriCase) -> MyPcs {
                 let p = perm();
-                let val_mmcs = MyMmcs::new(MyHash::new(p.clone()), MyCompress::new(p), 0);
+                let val_mmcs = MyMmcs::new(MyHash::new(p.clone()), MyCompress::new(p), case.cap_height);
                 let fri = FriParameters {
                     log_blowup: case.log_blowup,
                     log_final_poly_len: case.log_final_poly_len,
@@ -477,6 +483,8 @@ macro_rules! fri_cfg {
                     }
                 };
                 out.log_arities = honest.proof.query_proofs.first().map(|q| q.commit_phase_openings.iter().map(|o| o.log_arity as usize).collect()).unwrap_or_default();
+                out.roots_input = honest.commits.iter().map(|c| c.num_roots()).collect();
+                out.roots_commit = honest.proof.commit_phase_commits.iter().map(|c| c.num_roots()).collect();
                 out.native_honest = native_verify(case, &pcs, &honest);
                 let mut st = honest.clone();
                 match apply_fault(case, &mut st) {
